@@ -119,9 +119,10 @@ type Define struct {
 	Src    string
 }
 type Declare struct {
-	Name string
-	Args []string // SMT sorts
-	Ret  string
+	Name   string
+	Args   []string // SMT sorts
+	Ret    string
+	GoType string // optional Go type of the result ("as *TaxNode"), so that fields can be selected on it
 }
 type Lemma struct {
 	Name     string
@@ -302,7 +303,13 @@ func (cs *Contracts) loadFile(path string, goFile bool) error {
 				if op < 0 || cp < 0 {
 					return fmt.Errorf("%s: bad declare", where)
 				}
-				d := &Declare{Name: strings.TrimSpace(rest[:op]), Ret: sortName(strings.TrimSpace(rest[cp+1:]))}
+				retS := strings.TrimSpace(rest[cp+1:])
+				goT := ""
+				if i := strings.Index(retS, " as "); i >= 0 {
+					goT = strings.TrimSpace(retS[i+4:])
+					retS = strings.TrimSpace(retS[:i])
+				}
+				d := &Declare{Name: strings.TrimSpace(rest[:op]), Ret: sortName(retS), GoType: goT}
 				for _, a := range strings.Split(rest[op+1:cp], ",") {
 					a = strings.TrimSpace(a)
 					if a != "" {
